@@ -39,7 +39,9 @@ def r2(ctx, prog):
         f = prog.fn1(CAB + '::' + m)
         accs = [st for st in f.stmts if st and st['k'] == 'MemberExpr' and st.get('n') == 'obj_ptr']
         if not accs:
-            raise AnalysisBroken('%s: no access to Cell::obj_ptr' % f.name)
+            # delegating to at() for the pointer is fine (at() is checked itself) ...
+            if not any(c.get('fn') == 'at' and c.get('cls', '').startswith('tbox::cabinet::Cabinet<') for c in f.calls()):
+                raise AnalysisBroken('%s: no access to Cell::obj_ptr and no delegation to at()' % f.name)
         for a in accs:
             gs = f.cfg.controlling_branches(q.pt(f, a))
             null_t = any(any(c2.get('fn') == 'isNull' for c2 in q.subtree_calls(f, c)) and k == 1 for c, k, b in gs)
@@ -48,14 +50,41 @@ def r2(ctx, prog):
             id_t = any(f.s(f.strip_casts(c)).get('op') == '==' and k == 0 and any(c2.get('fn') == 'id' for c2 in q.subtree_calls(f, c)) and 'cell.id' in q.subtree_paths(f, c) for c, k, b in gs)
             ctx.ob('C08.R2', 'Cabinet::%s|guards' % m, null_t and range_t and id_t, 'obj_ptr access guarded by !isNull (%s), pos < size (%s), id match (%s)' % (null_t, range_t, id_t), where=f.loc(a['i']))
         # the cell examined is the one at token.pos()
-        ats = [st for st in f.calls() if st.get('fn') == 'at' and 'obj' in st and f.path(st['obj']) == 'cells_']
+        ats = [st for st in f.stmts if st and st['k'] in q.CALL_KINDS and (st.get('fn') == 'at' or st.get('op') == '[]') and 'obj' in st and f.path(st['obj']) == 'cells_']
         ctx.ob('C08.R2', 'Cabinet::%s|cell-of-token' % m, bool(ats) and all(f.path(a['args'][0]) == 'token.pos()' for a in ats), 'cell looked up at token.pos()', where=f.loc(f.body))
     fr = prog.fn1(CAB + '::free')
+    # ... but whether the entry is released must depend on the token only, never on the value that happens to be stored:
+    # an entry holding nullptr (alloc() before update()) is a live entry
+    for st in fr.stmts:
+        if st and st['k'] == 'BinaryOperator' and st.get('op') == '=' and fr.path(st['ch'][0]) == 'cell.id':
+            from tbxlint import rd as _rd
+            bad = []
+            for c, k, b in fr.cfg.controlling_branches(q.pt(fr, st)):
+                roots = [c]
+                for x in fr.walk(c):
+                    sx = fr.stmts[x]
+                    if sx['k'] == 'DeclRefExpr' and sx.get('dk') == 'Var':
+                        roots += [d_['rhs'] for d_ in _rd.local_defs(fr, sx['d']) if d_['rhs'] is not None]
+                dep_ptr = False
+                for r_ in roots:
+                    for x in fr.walk(r_):
+                        sx = fr.stmts[x]
+                        if sx['k'] == 'MemberExpr' and sx.get('n') == 'obj_ptr':
+                            dep_ptr = True
+                        if sx['k'] in q.CALL_KINDS and sx.get('fn') in ('at', 'operator[]') and sx.get('cls', '').startswith('tbox::cabinet::Cabinet<'):
+                            dep_ptr = True
+                if dep_ptr:
+                    bad.append(fr.loc(c))
+            ctx.ob('C08.R2', 'Cabinet::free|release-by-token', not bad,
+                   'the entry is released whenever the token matches' if not bad else
+                   'whether free() releases the entry depends on the stored pointer value (test at %s): a live entry that holds nullptr is never freed, keeps '
+                   'resolving and size() stays too large' % bad[0], where=fr.loc(st['i']))
     zero = [st for st in fr.stmts if st and st['k'] == 'BinaryOperator' and st.get('op') == '=' and fr.path(st['ch'][0]) == 'cell.id' and fr.s(fr.strip_casts(st['ch'][1])).get('cv') == 0]
     link = [st for st in fr.stmts if st and st['k'] == 'BinaryOperator' and st.get('op') == '=' and fr.path(st['ch'][0]) == 'cell.next_free' and fr.path(st['ch'][1]) == 'first_free_']
     head = [st for st in fr.stmts if st and st['k'] == 'BinaryOperator' and st.get('op') == '=' and fr.path(st['ch'][0]) == 'first_free_' and fr.path(st['ch'][1]) == 'token.pos()']
     dec = [st for st in fr.stmts if st and st['k'] == 'UnaryOperator' and st.get('op') == '--' and fr.path(st['ch'][0]) == 'count_']
-    saved = [st for st in fr.stmts if st and st['k'] == 'DeclStmt' and any('init' in d and fr.path(d['init']) == 'cell.obj_ptr' for d in st['decls'])]
+    saved = [st for st in fr.stmts if st and st['k'] == 'DeclStmt' and any('init' in d and (fr.path(d['init']) == 'cell.obj_ptr' or
+             any(c.get('fn') == 'at' and c.get('cls', '').startswith('tbox::cabinet::Cabinet<') for c in q.subtree_calls(fr, d['init']))) for d in st['decls'])]
     ok = len(zero) == 1 and len(link) == 1 and len(head) == 1 and len(dec) == 1 and bool(saved) and \
         fr.cfg.dominates(q.pt(fr, saved[0]), q.pt(fr, link[0])) and fr.cfg.dominates(q.pt(fr, link[0]), q.pt(fr, head[0]))
     ctx.ob('C08.R2', 'Cabinet::free|invalidate+link', ok, 'pointer saved, id zeroed, cell linked in front of the free list, head updated, count_ decremented once', where=fr.loc(fr.body))
